@@ -243,6 +243,9 @@ func vfC01Case(rt *rapid.T, c *ev.Collector) {
 	var hist []string
 	hist = append(hist, fmt.Sprintf("cfg(seed=%x iat=%d clientIAT=%d biased=%v legacy=%v rk=%d)", br.Seed, br.IAT, clientIAT, br.Biased, legacy, rk))
 
+	if vfDrawSteer(rt) {
+		cls = append(cls, "handshake-padding-steered")
+	}
 	p, err := vfStartPair(br, legacy, clientIAT)
 	if p != nil && p.N != nil {
 		defer p.N.Shutdown()
